@@ -635,6 +635,10 @@ class Enumerator:
         for o in self.expr(c):
             if o.exit != "fall":
                 continue
+            if o.val in ("true", "false") and o.events:
+                # the value was decided along the way (e.g. an inlined predicate helper that returned a constant)
+                res.append((o.events, o.val == "true"))
+                continue
             res.append((o.events + [Ev("cond", o.val, True, node=c)], True))
             res.append((o.events + [Ev("cond", o.val, False, node=c)], False))
         return res
@@ -744,7 +748,8 @@ class Enumerator:
     def x_While(self, e):
         res = []
         hv = self._havoc(e["body"])
-        for evs0, truth in self.cond_alts(e["cond"]):
+        alts = self.cond_alts(e["cond"])
+        for evs0, truth in alts:
             evs = [hv] + evs0
             if not truth:
                 res.append(PathOut(evs, "fall", ""))
@@ -754,8 +759,10 @@ class Enumerator:
                 if o.exit == "break" and (o.label is None or o.label == e.get("label")):
                     res.append(PathOut(evs + o.events, "fall", ""))
                 elif o.exit in ("fall", "continue"):
-                    # one iteration, then leave the loop
-                    res.append(PathOut(evs + o.events + [Ev("loop-next", node=e)], "fall", ""))
+                    # one or more iterations, then the loop is left because its condition evaluates to false
+                    for evs_f, t_f in alts:
+                        if not t_f:
+                            res.append(PathOut(evs + o.events + [Ev("loop-next", node=e), hv] + evs_f, "fall", ""))
                 else:
                     res.append(PathOut(evs + o.events, o.exit, o.val, o.label, o.valnode))
         return res
@@ -788,7 +795,8 @@ def subst_lets(text, lets, rounds=4):
         for k, v in lets.items():
             if not re.match(r"^[A-Za-z_][A-Za-z_0-9]*$", k) or v is None or k == v:
                 continue
-            t2 = re.sub(r"(?<![A-Za-z_0-9.])%s(?![A-Za-z_0-9(])" % re.escape(k), lambda m: v, text)
+            # not a field name (`x.k`), but the end of a range (`a..k`) is a use
+            t2 = re.sub(r"(?<![A-Za-z_0-9])(?:(?<!\.)|(?<=\.\.))%s(?![A-Za-z_0-9(])" % re.escape(k), lambda m: v, text)
             if t2 != text:
                 text = t2
                 changed = True
